@@ -65,6 +65,19 @@ class Probe(edzed.SBlock):
         return True
 
 
+class PProbe(edzed.AddonPersistence, Probe):
+    """persistent sender: the saved state is restored by an assignment; a damaged state makes the
+    restoration fail *after* that assignment (the failure is only logged, the output history goes on)"""
+
+    def get_state(self):
+        return {'v': self.output}
+
+    def _restore_state(self, state):
+        self.assign(state['v'])
+        if state.get('damaged'):
+            raise RuntimeError('saved state is damaged')
+
+
 # ---------------------------------------------------------------- generator
 filter_st = st.one_of(
     st.integers(0, 5).map(lambda i: ['add', i]),
@@ -101,6 +114,9 @@ def cases(draw):
         case['init'] = draw(st.sampled_from(['regular', 'event']))
         if not hist:
             case['hist'] = [[draw(st.integers(0, len(POOL) - 1)), False]]
+        if case['init'] == 'regular' and draw(st.integers(0, 3)) == 0:
+            # a saved state is restored first (possibly failing after it has set the output)
+            case['restore'] = {'idx': draw(st.integers(0, len(POOL) - 1)), 'damaged': draw(st.booleans())}
     elif kind == 'lib':
         # a library block as the sender: every accepted put / every counter event / every poll that
         # yields a value is one output assignment
@@ -195,8 +211,15 @@ def execute(case):
             objs = [mkval(*h) for h in case['hist']]
             assigned.extend(objs)
             first = objs[0] if case['init'] == 'regular' else UNDEF
-            snd = Probe('snd', on_output=oo, on_every_output=eo,
-                        x_log=log, x_marks=marks, x_first=first)
+            if case.get('restore'):
+                robj = mkval(case['restore']['idx'], False)
+                assigned.insert(0, robj)
+                snd = PProbe('snd', on_output=oo, on_every_output=eo, persistent=True,
+                             x_log=log, x_marks=marks, x_first=first)
+                circuit.set_persistent_data({snd.key: {'v': robj, 'damaged': case['restore']['damaged']}})
+            else:
+                snd = Probe('snd', on_output=oo, on_every_output=eo,
+                            x_log=log, x_marks=marks, x_first=first)
             edzed.Input('dummy', initdef=0)
             sim = harness.Running(wait=False)
             await sim.__aenter__()
@@ -423,6 +446,9 @@ def execute(case):
         res.classes.append('filters')
     if case['kind'] == 'sblock' and case['init'] == 'event':
         res.classes.append('initialised by event')
+    if case.get('restore'):
+        res.classes.append('saved state restored first' + (' (restoration fails after the assignment)'
+                                                           if case['restore']['damaged'] else ''))
     if case['kind'] == 'cblock' and any(g > 1 for g in case.get('groups', [])):
         res.classes.append('several puts per evaluation')
     res.outcome = {'assignments': len(assigned), 'deliveries': len(got)}
